@@ -141,7 +141,7 @@ def _frames(s: Stream, p, nsteps: int, rev: bool, stop_extra: bool) -> dict:
             cuts = sorted(s.sample(range(1, n), nfiles - 1))
             split = [b - a for a, b in zip([0, *cuts], [*cuts, n])]
         fr["split"] = split
-    fr["time_units"] = s.wpick([("epoch", 6), ("y2000", 2), ("hours", 2), ("days", 1), ("days1948", 1)])
+    fr["time_units"] = s.wpick([("epoch", 6), ("y2000", 2), ("hours", 2), ("days", 1), ("days1948", 1), ("year1", 1)])
     if fr.get("split") and len(fr["split"]) > 1 and s.chance(0.25):
         # files that come from different runs of the ocean model: each counts from its own reference time
         if s.chance(0.5):
@@ -433,6 +433,8 @@ def gen_scenario(seed: int, p: dict | None = None) -> dict:
                              + np.timedelta64(s.randint(0, 45600), "D")
                              + np.timedelta64(s.randint(0, 86399), "s"))
     sc["time"] = T
+    if stream(seed, "gen.native_times").chance(p.get("p_native_times", 0.3)):
+        sc["native_times"] = True
     # --- grid
     im, jm = s.randint(*p["grid_i"]), s.randint(*p["grid_j"])
     if stream(seed, "gen.biggrid").chance(p.get("p_big_grid", 0.015)):
@@ -440,6 +442,11 @@ def gen_scenario(seed: int, p: dict | None = None) -> dict:
         big = True
     else:
         big = False
+    huge = stream(seed, "gen.hugegrid").chance(p.get("p_huge_grid", 0.0))
+    if huge:
+        hs = stream(seed, "gen.hugegrid.dims")
+        im, jm = 840 + hs.randint(0, 20), 840 + hs.randint(0, 20)    # with three levels: more than 2**21 field points
+        big = True
     g: dict = {"imax0": im, "jmax0": jm}
     g["mask"] = _mask(s, p, jm, im)
     if s.chance(p["p_bathy_var"]):
@@ -463,9 +470,11 @@ def gen_scenario(seed: int, p: dict | None = None) -> dict:
     if big:
         # grid spacing that varies gently over the whole (large) grid
         bs = stream(seed, "gen.biggrid.metric")
-        g["metric"] = {"kind": "vary", "dx": dx, "ax": round(bs.uniform(-0.003, 0.003), 5),
-                       "ay": round(bs.uniform(-0.004, 0.004), 5), "ratio": bs.pick([1.0, 0.5, 2.0])}
+        g["metric"] = {"kind": "vary", "dx": dx, "ax": round(bs.uniform(-0.8, 0.8) / im, 6),
+                       "ay": round(bs.uniform(-0.8, 0.8) / jm, 6), "ratio": bs.pick([1.0, 0.5, 2.0])}
     N = s.randint(*p["N"])
+    if huge:
+        N = max(N, 3)
     v = {"N": N, "Vtransform": 2 if s.chance(p["p_vtransform2"]) else 1}
     v["Vstretching"] = s.pick([1, 2, 4]) if v["Vtransform"] == 2 else s.pick([1, 1, 2, 4])
     v["theta_s"] = round(s.uniform(0.5, 8.0), 2)
